@@ -239,3 +239,62 @@ func ReachBlock(from, to *ssa.BasicBlock, edgeOK func(a, b *ssa.BasicBlock) bool
 	}
 	return false
 }
+
+// StructFieldOrigin traces the value of field `field` of a struct held in a local cell: a direct
+// store to &cell.field, or a whole-struct store from a composite literal / another cell / a call.
+// Returns nil when the origin is ambiguous.
+func StructFieldOrigin(cell ssa.Value, field string, depth int) ssa.Value {
+	if depth > 4 || cell == nil {
+		return nil
+	}
+	refs := cell.Referrers()
+	if refs == nil {
+		return nil
+	}
+	var direct []ssa.Value
+	var whole []ssa.Value
+	for _, r := range *refs {
+		switch x := r.(type) {
+		case *ssa.FieldAddr:
+			if x.X == cell && FieldName(x.X.Type(), x.Field) == field {
+				for _, rr := range *x.Referrers() {
+					if st, ok := rr.(*ssa.Store); ok && st.Addr == x {
+						direct = append(direct, st.Val)
+					}
+				}
+			}
+		case *ssa.Store:
+			if x.Addr == cell {
+				whole = append(whole, x.Val)
+			}
+		}
+	}
+	if len(direct) == 1 {
+		return direct[0]
+	}
+	if len(direct) > 1 {
+		return nil
+	}
+	if len(whole) == 1 {
+		return StructValueField(whole[0], field, depth+1)
+	}
+	return nil
+}
+
+// StructValueField traces field `field` of a struct-typed value.
+func StructValueField(v ssa.Value, field string, depth int) ssa.Value {
+	if depth > 5 || v == nil {
+		return nil
+	}
+	switch x := v.(type) {
+	case *ssa.UnOp:
+		if x.Op == token.MUL {
+			if al, ok := x.X.(*ssa.Alloc); ok {
+				return StructFieldOrigin(al, field, depth+1)
+			}
+		}
+	case *ssa.Parameter, *ssa.Call, *ssa.Extract:
+		return nil
+	}
+	return nil
+}
